@@ -11,8 +11,7 @@ RULE = ("all 11 FlowUnits x 15 HydParam x darcy_weisbach{F,T} and 11 FlowUnits x
         "linearity, container preservation, factor == reference table. non-trivial: reference factor != 1")
 ASSUMPTIONS = ["reference factors typed from physical definitions: gal=3.785411784 L, Imp gal=4.54609 L, ft=0.3048 m, "
                "acre-ft=43560 ft3, psi=0.3048/0.4333 m, hp=745.699872 W, in=0.0254 m",
-               "the direction/area constant of the zero-order wall coefficient in US units is not judged (only inverse, "
-               "linearity and the mass-unit ratio), see DESIGN C17"]
+               "zero-order wall coefficient in US units: mass/ft2/day -> kg/m2/s, i.e. divided by 0.3048^2 m2 per ft2"]
 
 FT = 0.3048
 GAL = 3.785411784e-3
@@ -72,9 +71,8 @@ def ref_qual(param, fu, mass, order):
         if order == 1:
             return (FT if us else 1.0) / 86400.0, 1e-8
         if order == 0:
-            if us:
-                return None, None
-            return m / 86400.0, 1e-8
+            # mass per AREA per day: a quantity per ft2 is DIVIDED by the m2 in a ft2
+            return m / (FT * FT if us else 1.0) / 86400.0, 1e-8
         return 1.0, 1e-8
     if param == "WaterAge":
         return 3600.0, 1e-8
